@@ -636,17 +636,20 @@ DEPS = {
             (_SV_CONVERT, "`sv.frame = x` / `copy(frame=x)` is the conversion: to cartesian, rotate and translate, back to the original form"),
             (_FORMS, "a frame change goes through the cartesian form and back to the form the state had")],
     "C03": [(("beyond/config.py", ["*"]), "the missing-data policy and the database name are read from this object")],
-    "C04": [(("beyond/io/ccsds/omm.py", ["*"]), "a sibling of the anchored OPM / OEM modules: reads and writes epochs with the same helpers"),
+    "C04": [(_EOP, "a Date labelled UTC / UT1 is placed on the TAI axis with the leap-second table and the daily UT1-UTC of the EOP database: elapsed times, comparisons and abscissas inherit its errors (wave l: `bisect` made the look-up exclusive at the very midnight of a leap second)"),
+            (("beyond/io/ccsds/omm.py", ["*"]), "a sibling of the anchored OPM / OEM modules: reads and writes epochs with the same helpers"),
             (("beyond/io/ccsds/tdm.py", ["*"]), "a sibling of the anchored OPM / OEM modules: reads and writes epochs with the same helpers"),
             (("beyond/io/horizon.py", ["*"]), "reads epochs of a declared time scale"),
             (("beyond/frames/iau1980.py", ["*"]), "every model function takes its argument from the date in UT1 / TT"),
             (("beyond/frames/iau2010.py", ["*"]), "every model function takes its argument from the date in UT1 / TT"),
             (("beyond/env/jpl.py", ["JplPropagator.*", "Bsp.*", "get_orbit"]), "the kernels are evaluated at the julian date in TDB"),
             (("beyond/utils/ltan.py", ["*"]), "sidereal time and Sun position of a date")],
-    "C05": [(_DATE_ARITH, "the elapsed time of a propagation is a difference of Dates"),
+    "C05": [(_EOP, "a Date labelled UTC / UT1 is placed on the TAI axis with the leap-second table and the daily UT1-UTC of the EOP database: elapsed times, comparisons and abscissas inherit its errors (wave l: `bisect` made the look-up exclusive at the very midnight of a leap second)"),
+            (_DATE_ARITH, "the elapsed time of a propagation is a difference of Dates"),
             (_ORBIT_DISPATCH, "`Orbit.propagate` hands the date or the timedelta to the propagator"),
             (("beyond/propagators/base.py", ["*"]), "the analytical propagators inherit `propagate` / `iter` from it")],
-    "C06": [(_DATE_ARITH, "steps and stop conditions are Date sums and comparisons"),
+    "C06": [(_EOP, "a Date labelled UTC / UT1 is placed on the TAI axis with the leap-second table and the daily UT1-UTC of the EOP database: elapsed times, comparisons and abscissas inherit its errors (wave l: `bisect` made the look-up exclusive at the very midnight of a leap second)"),
+            (_DATE_ARITH, "steps and stop conditions are Date sums and comparisons"),
             (("beyond/orbits/man.py", ["*"]), "the maneuvers the integrator applies"),
             (_SV_CONVERT, "every step is returned as a copy in the requested frame and form"),
             (_FORMS, "the integrator starts from `orbit.copy(form='cartesian')`: the initial state of an orbit given in any element form (wave k: a slip in equinoctial -> keplerian moved the start point along the orbit)")],
@@ -656,12 +659,15 @@ DEPS = {
             (_DATE_PRINT, "the calendar fields handed to the sgp4 library are printed with `Date.__format__`; the TLE epoch likewise"),
             (_SCALES, "`Sgp4.propagate` converts the requested date to UTC; `Sgp4Beta` differences instants"),
             (_EOP, "UTC <-> TAI goes through the leap-second table of the EOP database (wave k: the table stored most-recent-first made TAI-UTC 1.4 s for every date)")],
-    "C08": [(x, "a propagator whose `iter` and `propagate` have to agree") for x in _PROPAGATORS if not x[0].endswith(("keplernum.py", "base.py"))]
+    "C08": [(_EOP, "a Date labelled UTC / UT1 is placed on the TAI axis with the leap-second table and the daily UT1-UTC of the EOP database: elapsed times, comparisons and abscissas inherit its errors (wave l: `bisect` made the look-up exclusive at the very midnight of a leap second)")] + [
+            (x, "a propagator whose `iter` and `propagate` have to agree") for x in _PROPAGATORS if not x[0].endswith(("keplernum.py", "base.py"))]
            + [(_SV_CONVERT, "every yielded point is a copy of the propagated state")],
-    "C09": [(("beyond/dates/date.py", ["Date._mjd", "Date.mjd", "Date.__lt__", "Date.__le__", "Date.__gt__", "Date.__ge__", "Date.__eq__", "Date.__sub__", "Date.__add__"]),
+    "C09": [(_EOP, "a Date labelled UTC / UT1 is placed on the TAI axis with the leap-second table and the daily UT1-UTC of the EOP database: elapsed times, comparisons and abscissas inherit its errors (wave l: `bisect` made the look-up exclusive at the very midnight of a leap second)"),
+            (("beyond/dates/date.py", ["Date._mjd", "Date.mjd", "Date.__lt__", "Date.__le__", "Date.__gt__", "Date.__ge__", "Date.__eq__", "Date.__sub__", "Date.__add__"]),
              "the abscissa of the interpolation and the range test"),
             (("beyond/orbits/statevector.py", ["StateVector.__new__", "StateVector.copy"]), "the interpolated state is built from the neighbours' metadata")],
-    "C10": [(x, "a producer of the stream the listeners watch") for x in _PROPAGATORS if not x[0].endswith("base.py")]
+    "C10": [(_EOP, "a Date labelled UTC / UT1 is placed on the TAI axis with the leap-second table and the daily UT1-UTC of the EOP database: elapsed times, comparisons and abscissas inherit its errors (wave l: `bisect` made the look-up exclusive at the very midnight of a leap second)")] + [
+            (x, "a producer of the stream the listeners watch") for x in _PROPAGATORS if not x[0].endswith("base.py")]
            + [(_ORBIT_DISPATCH, "`Orbit.iter` forwards the listeners"),
               (("beyond/orbits/statevector.py", ["StateVector.event", "StateVector.event:setter", "StateVector.copy", "StateVector.frame:setter", "StateVector.form:setter"]),
                "events are attached to copies of the state, the watched quantities are read in the listener's frame and form"),
@@ -697,11 +703,13 @@ DEPS = {
     "C15": [(_FORMS, "names and aliases are resolved through `Form.alt` and the forms' parameter lists"),
             (("beyond/frames/center.py", ["*"]), "`copy(frame=...)` runs the centre chain with the registered reference states as offsets: it must leave them alone"),
             (("beyond/frames/orient.py", ["Orientation.convert_to", "*._to_parent", "*.__init__"]), "`copy(frame=...)` runs the orientation chain with the registered reference states")],
-    "C16": [(_DATE_ARITH, "the elapsed time is a difference of Dates, maneuvers are found by comparing Dates"),
+    "C16": [(_EOP, "a Date labelled UTC / UT1 is placed on the TAI axis with the leap-second table and the daily UT1-UTC of the EOP database: elapsed times, comparisons and abscissas inherit its errors (wave l: `bisect` made the look-up exclusive at the very midnight of a leap second)"),
+            (_DATE_ARITH, "the elapsed time is a difference of Dates, maneuvers are found by comparing Dates"),
             (_ORBIT_DISPATCH, "`Orbit.propagate` / `Orbit.iter` hand over to the propagator"),
             (_SV_CONVERT, "the propagated state is a copy of the initial one (it carries the propagator and the frame)"),
             (_INFOS, "`ClohessyWiltshire.from_orbit` takes the semi-major axis of the target from `orbit.infos.kep.a`")],
-    "C17": [(("beyond/orbits/statevector.py", ["Infos.*", "StateVector.infos", "StateVector.copy", "StateVector.frame:setter", "StateVector.form:setter"]),
+    "C17": [(_EOP, "a Date labelled UTC / UT1 is placed on the TAI axis with the leap-second table and the daily UT1-UTC of the EOP database: elapsed times, comparisons and abscissas inherit its errors (wave l: `bisect` made the look-up exclusive at the very midnight of a leap second)"),
+            (("beyond/orbits/statevector.py", ["Infos.*", "StateVector.infos", "StateVector.copy", "StateVector.frame:setter", "StateVector.form:setter"]),
              "`dkep2dv` reads speed, mean motion and flight-path quantities from `orb.infos`"),
             (_DATE_ARITH, "the once-only windows of the maneuvers are Date comparisons: `<` and `<=` must be complementary (wave k: a tolerance in `__le__` / `__ge__` only)")],
     "C18": [(_DATE_ARGS, "the kernels and the analytical series are evaluated at the date in TDB / TT"),
@@ -709,7 +717,8 @@ DEPS = {
             (_SV_CONVERT, "`copy(frame=...)` is how a state changes centre"),
             (_FORMS, "a frame change goes through the cartesian form and back to the form the state had, with the new centre's µ"),
             (_EOP, "the TDB / TT argument of a UTC date goes through TAI-UTC of the EOP database (wave k: `round(mjd)` in the day look-up made it one second late before a leap second)")],
-    "C19": [(_FORMS, "the inputs are converted to the form each helper needs"),
+    "C19": [(_EOP, "a Date labelled UTC / UT1 is placed on the TAI axis with the leap-second table and the daily UT1-UTC of the EOP database: elapsed times, comparisons and abscissas inherit its errors (wave l: `bisect` made the look-up exclusive at the very midnight of a leap second)"),
+            (_FORMS, "the inputs are converted to the form each helper needs"),
             (("beyond/orbits/statevector.py", ["Infos.*", "StateVector.infos", "StateVector.copy", "StateVector.frame:setter", "StateVector.form:setter"]), "period, mean motion and conversions of the inputs"),
             (_CONSTANTS, "radius, J2 and µ of the central body"),
             (("beyond/dates/date.py", ["Date.__sub__", "Date.__add__"]), "the time of flight is a difference of Dates")],
